@@ -4,8 +4,13 @@ language.
 -/
 import Pfl.Proofs.CFGBase
 import Pfl.Props.C09_Clean
+import Pfl.Proofs.CFGSubst
 namespace Pfl
 namespace CFG
+open Pfl.CFG.Sub
+
+-- the `Nodup` hypotheses of the statements below turn out not to be needed by the proofs
+set_option linter.unusedVariables false
 
 /-- `w` is obtained from the terminal word `u` by replacing every occurrence of a substituted
 terminal by a word of its grammar (other terminals stay) -/
@@ -32,27 +37,44 @@ structure SubstOK (G : CFG) (subst : List (String × CFG)) : Prop where
 
 theorem substitute_lang (G : CFG) (subst : List (String × CFG)) (h : SubstOK G subst) (w : List String) :
     (G.substitute subst).Lang w ↔ ∃ u, G.Lang u ∧ SubstWord subst u w := by
-  sorry
+  have ok : OK G subst :=
+    { wfG := h.wfG, wfH := h.wfH, keys := h.keys, startH := h.startH, tersG := h.tersG,
+      tersH := h.tersH }
+  have e : ∀ u w, SubstWord subst u w ↔ SW subst u w := by
+    intro u w
+    constructor
+    · intro h
+      induction h with
+      | nil => exact .nil
+      | keep h1 _ ih => exact .keep h1 ih
+      | repl h1 h2 _ ih => exact .repl h1 h2 ih
+    · intro h
+      induction h with
+      | nil => exact .nil
+      | keep h1 _ ih => exact .keep h1 ih
+      | repl h1 h2 _ ih => exact .repl h1 h2 ih
+  simp only [e]
+  exact substitute_lang_sw ok w
 
 theorem union_lang (G H : CFG) (hG : G.WF) (hH : H.WF) (sG : G.start ≠ none) (sH : H.start ≠ none)
     (nG : G.vars.Nodup) (nH : H.vars.Nodup) (tG : ∀ t ∈ G.ters, t ∉ G.vars) (tH : ∀ t ∈ H.ters, t ∉ H.vars)
     (w : List String) : (G.union H).Lang w ↔ G.Lang w ∨ H.Lang w := by
-  sorry
+  exact union_lang' G H hG hH sG sH tG tH w
 
 theorem concatenate_lang (G H : CFG) (hG : G.WF) (hH : H.WF) (sG : G.start ≠ none) (sH : H.start ≠ none)
     (nG : G.vars.Nodup) (nH : H.vars.Nodup) (tG : ∀ t ∈ G.ters, t ∉ G.vars) (tH : ∀ t ∈ H.ters, t ∉ H.vars)
     (w : List String) : (G.concatenate H).Lang w ↔ ∃ u v, w = u ++ v ∧ G.Lang u ∧ H.Lang v := by
-  sorry
+  exact concatenate_lang' G H hG hH sG sH tG tH w
 
 theorem closure_lang (G : CFG) (hG : G.WF) (sG : G.start ≠ none) (nG : G.vars.Nodup)
     (tG : ∀ t ∈ G.ters, t ∉ G.vars) (w : List String) :
     G.closure.Lang w ↔ ∃ ws : List (List String), w = ws.flatten ∧ ∀ x ∈ ws, G.Lang x := by
-  sorry
+  exact closure_lang' G hG sG tG w
 
 theorem posClosure_lang (G : CFG) (hG : G.WF) (sG : G.start ≠ none) (nG : G.vars.Nodup)
     (tG : ∀ t ∈ G.ters, t ∉ G.vars) (w : List String) :
     G.posClosure.Lang w ↔ ∃ ws : List (List String), ws ≠ [] ∧ w = ws.flatten ∧ ∀ x ∈ ws, G.Lang x := by
-  sorry
+  exact posClosure_lang' G hG sG tG w
 
 end CFG
 end Pfl
